@@ -114,8 +114,9 @@ def c16_history(i2: int, v0: int, v1: Optional[int], b1: bool, o: bool) -> bool:
     o = bool(sh["o"])
     reset_caches()
     for k, idx in enumerate(idxs):
-        ok, r = safe(lambda: send(eng, idx, vs[k], bs[k], o))
-        ok2, ref = safe(lambda: send(FRESH, idx, vs[k], bs[k], o))
+        ok_sel = o if k != 1 else not o          # the 2nd request names the other operation / toggles the failure
+        ok, r = safe(lambda: send(eng, idx, vs[k], bs[k], ok_sel))
+        ok2, ref = safe(lambda: send(FRESH, idx, vs[k], bs[k], ok_sel))
         observe((idx, vs[k], bs[k]), r, ref)
         if not ok or not ok2 or r != ref:
             return verdict(False)
